@@ -256,6 +256,12 @@ G(name="common_recent_seqno", harness="h_common.c", entry="h_recent_seqno", enfo
 G(name="cli_read_dns", entry="h_read_dns", defs=["STUB_READDNS=1"], enforce=["read_dns_withq"], loops="client.inv", loop_fns=["read_dns_withq"], props={"C06": "all", "C09": "all", "C01": "all"}, min_obl=30, cost=60,
   **dict(CLI, unwind=4),
   what="client read_dns_withq for every reply buffer of 2..capacity bytes (exact-size object), arbitrary datagram, decoder results per their contracts: result -1..buflen, nothing written outside the caller's buffer or the local datagram buffer; MX/SRV reassembly loop closed by a loop contract (parts decoded inside the answer text, decoded bytes never overtake the text); raw mode: only a successfully inflated packet reaches tun")
+G(name="cli_send_chunk", entry="h_send_chunk", defs=["STUB_SENDERS=1", "STUB_TUNNEL=1"], enforce=["send_chunk"], props={"C08": "all", "C01": "all", "C06": "safety"}, min_obl=10, cost=30, **CLI,
+  what="client send_chunk for an arbitrary packet state with bytes left to send: build_hostname is offered exactly the unsent rest of the packet with the tunnel domain, the negotiated codec and the length limit; sentlen is what the builder reports; the packet itself is unchanged; the 5-character header is userid, sequence/fragment numbers, the acknowledged downstream position and the last-fragment flag (set exactly when the rest of the packet is carried) as the protocol document lays them out")
+G(name="cli_send_packet", entry="h_send_packet", defs=["STUB_SENDERS=1", "STUB_TUNNEL=1"], enforce=["send_packet"], props={"C08": "all", "C06": "safety"}, min_obl=5, cost=10, **CLI,
+  what="client send_packet (login, version, fragment-size and ping messages): the whole message is offered to build_hostname in Base32 with the tunnel domain and the length limit; the name is command letter + data part")
+G(name="cli_send_probe", entry="h_send_probe", defs=["STUB_SENDERS=1", "STUB_TUNNEL=1"], enforce=["send_fragsize_probe"], props={"C08": "all", "C06": "safety"}, min_obl=5, cost=10, **CLI,
+  what="client send_fragsize_probe for every fragment size and every userid byte the server may have sent: name built like a data chunk, header r + userid/size digits + dummy CMC; arithmetic on the server-supplied userid is defined")
 
 LEVELS = {}
 TRUSTED_BASE = ["CBMC 6.11.0 (goto-cc front end, goto-instrument --dfcc contract instrumentation, symex)",
